@@ -714,6 +714,9 @@ class _FPCore2FPy:
 
     def _visit_data(self, data: DataElt):
         match data:
+            case str():
+                # the FPCore backend annotates with bare strings (`:precision integer`)
+                return data
             case fpc.String():
                 return data.value
             case fpc.ValueExpr():
@@ -731,7 +734,7 @@ class _FPCore2FPy:
                     e = data_as_expr(v, strict=True)
                     new_props[k] = self._visit(e, _Ctx(env=ctx.env))
                 case _:
-                    new_props[pythonize_id(k)] = self._visit_data(v.value)
+                    new_props[pythonize_id(k)] = self._visit_data(v.value if isinstance(v, fpc.Data) else v)
         return new_props
 
     def _visit_function(self, f: fpc.FPCore):
